@@ -718,7 +718,7 @@ INFO = {'C15': {
         'explicit integer ids are chosen outside the automatic range']}}
 for _v in INFO.values():
     _v['rule'] += (
-        '; swarm dimensions (see probes): references to uncopyable and cyclic objects, a module file with a hyphen, bool/int/float arguments that compare equal, components that mutate their arguments, untouched reloads, a second resource tree, a root map with its own split_char, a free-standing handle, explicit ids equal to automatic ones, a class decorated after use, resources whose text looks like a reference, world files with every $ escaped as \\u0024')
+        '; swarm dimensions (see probes): references to uncopyable and cyclic objects, a module file with a hyphen, bool/int/float arguments that compare equal, components that mutate their arguments, untouched reloads, a second resource tree, a root map with its own split_char, a free-standing handle, explicit ids equal to automatic ones, a class decorated after use, resources whose text looks like a reference, world files with every $ escaped as \\u0024, the world handle shadowed by a newer handle')
 PROBES = {'C15': ['ref.object', 'ref.res', 'ref.handle', 'near_miss_string',
                   'nested_marker_passthrough', 'explicit_id',
                   'entity_without_components', 'handle_depth>=2',
